@@ -149,6 +149,7 @@ type Ctx struct {
 	lastEmit time.Time
 	level    string
 	stopped  bool
+	expensive int
 
 	curUnit  atomic.Int64
 	curStart atomic.Int64 // unix nanos; 0 = idle
@@ -159,6 +160,16 @@ type Ctx struct {
 }
 
 func (c *Ctx) Quick() bool { return c.Tier != "thorough" }
+
+// Expensive counts one expensive violation (a hang / step-budget overrun); after
+// three of them the worker stops enumerating (the run is then not exhaustive).
+func (c *Ctx) Expensive() {
+	c.expensive++
+	if c.expensive >= 3 {
+		c.stopped = true
+		c.Note("stopped early after 3 non-termination violations in this shard")
+	}
+}
 
 // Pick returns q for the quick tier and t for the thorough tier.
 func (c *Ctx) Pick(q, t int) int {
@@ -369,7 +380,7 @@ func workerMain(args []string) {
 		c.limit = 20 * time.Second
 	}
 	if c.Only >= 0 {
-		c.limit = 60 * time.Second
+		c.limit = 40 * time.Second
 	}
 	c.lastEmit = time.Now()
 	// watchdog: a unit that runs too long or a heap that grows too large is a hang
@@ -419,6 +430,7 @@ type shardState struct {
 	skip     []int64
 	done     bool
 	stopped  bool
+	expensive int
 	total    int64
 	levels   []string
 	restarts int
@@ -479,6 +491,7 @@ func checkMain(args []string) {
 		desc, why string
 	}
 	var hangs []hang
+	var stopAll atomic.Bool
 	shards := make([]*shardState, n)
 	var wg sync.WaitGroup
 	for i := 0; i < n; i++ {
@@ -486,7 +499,7 @@ func checkMain(args []string) {
 		wg.Add(1)
 		go func(s *shardState) {
 			defer wg.Done()
-			for !s.done && s.restarts < 12 {
+			for !s.done && s.restarts < 12 && !stopAll.Load() {
 				prog := filepath.Join(tmp, fmt.Sprintf("progress-%d", s.idx))
 				os.Remove(prog)
 				var sk []string
@@ -535,6 +548,9 @@ func checkMain(args []string) {
 						why = hg2.why
 					}
 					hangs = append(hangs, hang{bad, desc, why})
+					if len(hangs) >= 3 {
+						stopAll.Store(true)
+					}
 				} else {
 					total.Notes = append(total.Notes, fmt.Sprintf("unit %d (%s) exceeded its limit under load but completed solo; not a violation", bad, desc))
 				}
@@ -542,9 +558,6 @@ func checkMain(args []string) {
 				s.skip = append(s.skip, bad)
 				if lastUpto+1 > s.from {
 					s.from = lastUpto + 1
-				}
-				if !fin2 && len(hangs) >= 8 {
-					break
 				}
 			}
 		}(shards[i])
